@@ -175,7 +175,7 @@ func (v *LV) Build(r *Rng) any {
 			}
 			return out
 		}
-		out := make([]any, len(v.A))
+		out := make([]any, len(v.A), len(v.A)+int(v.I)) // I: spare capacity of the backing array
 		for i, x := range v.A {
 			out[i] = x.Build(r)
 		}
@@ -303,6 +303,15 @@ func genScalar1(r *Rng) *LV {
 func genArr(r *Rng, depth int) *LV {
 	n := r.Range(0, 6)
 	v := &LV{T: "arr"}
+	if r.Chance(0.3) {
+		v.I = int64(r.Range(1, 8)) // []any with spare capacity (as append-built slices have)
+	}
+	defer func() {
+		if depth > 0 && len(v.A) > 0 && r.Chance(0.15) {
+			i := r.Intn(len(v.A))
+			v.A[i] = &LV{T: "drop", A: []*LV{v.A[i]}} // a Drop nested inside a slice
+		}
+	}()
 	switch r.weighted([]int{3, 3, 2, 2, 1}) {
 	case 0: // strings
 		for i := 0; i < n; i++ {
@@ -404,6 +413,10 @@ func genMap(r *Rng, depth, lo, hi int) *LV {
 	}
 	if v.T == "map" {
 		v.R = pick(r, []string{"", "", "typed", "mapslice", "ikm", "ptr"})
+	}
+	if depth > 0 && len(v.A) > 0 && v.R != "typed" && r.Chance(0.15) {
+		i := r.Intn(len(v.A))
+		v.A[i] = &LV{T: "drop", A: []*LV{v.A[i]}} // a Drop nested inside a map
 	}
 	return v
 }
